@@ -77,4 +77,10 @@ CHECKS = {
         "level_note": "Trusts the reference model (harness/src/mon_c13.rs) and hook H4; path-rewrite plugins are off in these worlds.",
         "technique": "reference-model monitor over lattice candidates (hook H4) and InputBuffer tables",
     },
+    "C11": {
+        "level_text": "Exploration with an exhaustive inner sweep: all 1,024 subsets for every word of every generated dictionary stack are loaded and compared, field by field through the public accessors, with the full load of the same word; tokenizations under random subsets are compared with full-field tokenizations. Held on the counted words / analyses.",
+        "design_ref": "DESIGN.md 6/C11",
+        "level_note": "The full-field load of the same tree is the reference (differential); its own correctness is C05's business.",
+        "technique": "differential monitor (subset load vs full load), exhaustive over the 2^10 subsets per word",
+    },
 }
